@@ -127,6 +127,20 @@ func c06Body(r *Run) {
 			}
 		}
 	}
+	// one run in eight of the rest: the context given to Run is cancelled while invocations shorter than CloseTimeout are in
+	// flight; the router closes itself, and Run returns only once that close is through (same restrictions as above)
+	cancelRun := !stopAll && stopHandler < 0 && subscribeFails < 0 && t.Chance(1, 8) && r.Params["clock_jumps"] == 0
+	cancelDelay := time.Duration(0)
+	if cancelRun {
+		cancelDelay = time.Duration(t.Int(5)) * 20 * time.Millisecond
+		for _, h := range hs {
+			for u, d := range h.dur {
+				if d > 100*time.Millisecond {
+					h.dur[u] = 100 * time.Millisecond
+				}
+			}
+		}
+	}
 	panics := map[string]bool{}
 	for i := 0; i < nH; i++ {
 		for m := 0; m < len(hs[i].dur); m++ {
@@ -147,7 +161,7 @@ func c06Body(r *Run) {
 		}
 		h.sub.CloseWaits = subCloseWaits
 	}
-	r.Describe("handler stopped on its own: %d after %v; panicking messages: %v; slow publisher Close=%v; subscriber Close waits for settlement=%v", stopHandler, stopDelay, panics, slowPubClose, subCloseWaits)
+	r.Describe("handler stopped on its own: %d after %v; panicking messages: %v; slow publisher Close=%v; subscriber Close waits for settlement=%v; Run context cancelled=%v after %v", stopHandler, stopDelay, panics, slowPubClose, subCloseWaits, cancelRun, cancelDelay)
 	r.Describe("transport gochannel=%v, %d subscriber decorators, CloseTimeout=%v, %d concurrent closers (delays %v), injected Close before step %d, Subscribe of handler %d fails", useGoChannel, nDec, closeTimeout, nClosers, closerDelay, inj, subscribeFails)
 	r.Param("inject_step", inj)
 
@@ -327,7 +341,9 @@ func c06Body(r *Run) {
 				if i == stopHandler || stopAll {
 					continue // stopped on its own: no longer one of the router's handlers when Close came
 				}
-				if h.sub.Closes == 0 {
+				// (after the Run context was cancelled the handlers have ended through their own context, like stopped ones:
+				// "we are closing subscriber just when entire router is closed" — their publishers are closed all the same)
+				if h.sub.Closes == 0 && !cancelRun {
 					r.Fail("C06.R6", "Router.Close did not close a started handler's subscriber", "%s: Subscriber.Close() calls = 0", h.name)
 				}
 				if h.pub.Closes == 0 {
@@ -373,6 +389,19 @@ func c06Body(r *Run) {
 					return
 				}
 			}
+		}()
+	}
+	if cancelRun {
+		go func() {
+			select {
+			case <-rig.Router.Running():
+			case <-runDone:
+				return
+			}
+			time.Sleep(cancelDelay)
+			r.Fault("run-context-cancel")
+			r.Logf("the context given to Run is cancelled")
+			rig.cancel()
 		}()
 	}
 	if stopAll {
